@@ -12,6 +12,8 @@ pub struct Scenario {
     /// last burst is a sentinel (one valid request from a client that sent nothing else)
     pub sentinel: bool,
     pub tag: String,
+    /// idle time (ms) before burst k is sent (missing = 0)
+    pub pauses: Vec<u64>,
 }
 
 fn b64_variants(secret: &[u8]) -> Vec<Vec<u8>> {
@@ -89,6 +91,7 @@ pub fn run_scenario(out: &mut Out, sc: Scenario) {
     let cfg = sc.cfg.clone();
     let nclients = sc.nclients;
     let bursts = sc.bursts;
+    let pauses = sc.pauses.clone();
     let imp = on_named_thread("rig", move || {
         capture(true);
         let t0 = now_ns();
@@ -99,22 +102,44 @@ pub fn run_scenario(out: &mut Out, sc: Scenario) {
         };
         let pubkey = rig.server.get_public_key().to_string();
         let mut replies: Vec<(usize, Vec<u8>)> = vec![];
-        for burst in &bursts {
+        // clock bracket of every burst, and the burst each reply arrived in
+        let mut brackets: Vec<String> = vec![];
+        let mut reply_burst: Vec<usize> = vec![];
+        for (k, burst) in bursts.iter().enumerate() {
             if burst.is_empty() {
+                brackets.push("0.0-0.0".into());
                 continue;
             }
+            if let Some(ms) = pauses.get(k) {
+                if *ms > 0 {
+                    // idle: the worker polls (and times out) as it would in production
+                    let until = std::time::Instant::now() + std::time::Duration::from_millis(*ms);
+                    while std::time::Instant::now() < until {
+                        rig.process();
+                    }
+                }
+            }
+            let b0 = now_ns();
             for (c, d) in burst {
                 rig.send(*c, d);
             }
             rig.process_burst(burst.len());
-            replies.extend(rig.drain());
+            let got = rig.drain();
+            let b1 = now_ns();
+            brackets.push(format!("{}.{:09}-{}.{:09}", b0.0, b0.1, b1.0, b1.1));
+            for _ in 0..got.len() { reply_burst.push(k); }
+            replies.extend(got);
         }
         // a straggler pass: nothing may arrive any more
         rig.process();
         let late = rig.drain();
         let t1 = now_ns();
+        for _ in 0..late.len() { reply_burst.push(bursts.len()); }
         replies.extend(late);
-        replies.sort_by_key(|(c, _)| *c);
+        let mut order: Vec<usize> = (0..replies.len()).collect();
+        order.sort_by_key(|&i| replies[i].0); // stable: keeps per-client order
+        let replies: Vec<(usize, Vec<u8>)> = order.iter().map(|&i| replies[i].clone()).collect();
+        let reply_burst: Vec<usize> = order.iter().map(|&i| reply_burst[i]).collect();
         let st = rig.server.stats_verif();
         let stats = format!(
             "{},{},{},{},{},{},{},{},{},{},{},{}",
@@ -143,9 +168,10 @@ pub fn run_scenario(out: &mut Out, sc: Scenario) {
         } else {
             replies.iter().map(|(c, d)| format!("{}:{}", c, hex(d))).collect::<Vec<_>>().join(";")
         };
+        let rb = if reply_burst.is_empty() { "-".to_string() } else { reply_burst.iter().map(|b| b.to_string()).collect::<Vec<_>>().join(",") };
         format!(
-            "panic={} t0={}.{:09} t1={}.{:09} pub={} stats={} leak={} logs={} replies={}",
-            if rig.panicked { 1 } else { 0 }, t0.0, t0.1, t1.0, t1.1, pubkey, stats, leak, records.len(), rep
+            "panic={} t0={}.{:09} t1={}.{:09} pub={} stats={} leak={} logs={} brackets={} rburst={} replies={}",
+            if rig.panicked { 1 } else { 0 }, t0.0, t0.1, t1.0, t1.1, pubkey, stats, leak, records.len(), brackets.join(","), rb, rep
         )
     });
     out.case("srv", &[&cfg_str, &bursts_str], &imp);
@@ -325,7 +351,7 @@ fn mixed(r: &mut Rng, thorough: bool, tag: &str, fault: u8, p_invalid: u64) -> S
     // sentinel from a dedicated extra client
     let s = g.valid_any();
     bursts.push(vec![(nclients, s)]);
-    Scenario { cfg, nclients: nclients + 1, bursts, sentinel: true, tag: tag.to_string() }
+    Scenario { cfg, nclients: nclients + 1, bursts, sentinel: true, tag: tag.to_string(), pauses: vec![] }
 }
 
 /// C12: exhaustive VER lists over 5 symbols × SRV absent / correct / wrong
@@ -377,7 +403,7 @@ fn c12_cases(out: &mut Out, r: &mut Rng, max_len: usize) {
     for chunk in reqs.chunks(40) {
         let burst: Vec<(usize, Vec<u8>)> = chunk.iter().cloned().enumerate().collect();
         let n = burst.len();
-        run_scenario(out, Scenario { cfg: cfg.clone(), nclients: n, bursts: vec![burst], sentinel: false, tag: "c12".into() });
+        run_scenario(out, Scenario { cfg: cfg.clone(), nclients: n, bursts: vec![burst], sentinel: false, tag: "c12".into(), pauses: vec![] });
     }
 }
 
@@ -440,7 +466,7 @@ fn c07_cases(out: &mut Out, r: &mut Rng, thorough: bool) {
         // sentinel proves the earlier datagrams were consumed
         let s = g.valid_any();
         burst.push((n, s));
-        run_scenario(out, Scenario { cfg: cfg.clone(), nclients: n + 1, bursts: vec![burst], sentinel: false, tag: "c07".into() });
+        run_scenario(out, Scenario { cfg: cfg.clone(), nclients: n + 1, bursts: vec![burst], sentinel: false, tag: "c07".into(), pauses: vec![] });
     }
     // full batches of 64 (maximum path depth), all minimum-size requests
     for ietf in [false, true] {
@@ -450,7 +476,7 @@ fn c07_cases(out: &mut Out, r: &mut Rng, thorough: bool) {
                 (i, d)
             })
             .collect();
-        run_scenario(out, Scenario { cfg: cfg.clone(), nclients: 64, bursts: vec![burst], sentinel: false, tag: "c07-full".into() });
+        run_scenario(out, Scenario { cfg: cfg.clone(), nclients: 64, bursts: vec![burst], sentinel: false, tag: "c07-full".into(), pauses: vec![] });
     }
 }
 
@@ -474,7 +500,7 @@ fn c02_cases(out: &mut Out, r: &mut Rng, thorough: bool) {
                 .collect();
             bursts.push(burst);
         }
-        run_scenario(out, Scenario { cfg, nclients: 8, bursts, sentinel: false, tag: "c02".into() });
+        run_scenario(out, Scenario { cfg, nclients: 8, bursts, sentinel: false, tag: "c02".into(), pauses: vec![] });
     }
     // configured batch_size 1..=64 with bursts larger than the batch
     let bsizes: Vec<u8> = if thorough { (1..=64).collect() } else { vec![1, 2, 3, 8, 63, 64] };
@@ -483,7 +509,7 @@ fn c02_cases(out: &mut Out, r: &mut Rng, thorough: bool) {
         let cfg = cfg_of(&mut g, b, 0, "off");
         let m = (b as usize * 2 + 3).min(100);
         let burst: Vec<(usize, Vec<u8>)> = (0..m).map(|i| (i % 5, g.valid_any())).collect();
-        run_scenario(out, Scenario { cfg, nclients: 5, bursts: vec![burst], sentinel: false, tag: "c02-bs".into() });
+        run_scenario(out, Scenario { cfg, nclients: 5, bursts: vec![burst], sentinel: false, tag: "c02-bs".into(), pauses: vec![] });
     }
     // fault injection: >= 2000 replies per setting
     let faults: Vec<u8> = if thorough { vec![1, 5, 10, 25, 50] } else { vec![10, 50] };
@@ -495,7 +521,27 @@ fn c02_cases(out: &mut Out, r: &mut Rng, thorough: bool) {
             let burst: Vec<(usize, Vec<u8>)> = (0..64).map(|i| (i % 16, g.valid_any())).collect();
             bursts.push(burst);
         }
-        run_scenario(out, Scenario { cfg, nclients: 16, bursts, sentinel: false, tag: format!("fault{}", p) });
+        run_scenario(out, Scenario { cfg, nclients: 16, bursts, sentinel: false, tag: format!("fault{}", p), pauses: vec![] });
+    }
+}
+
+/// C11: the midpoint is the clock reading taken when the batch is signed — also after idle periods
+/// and after bursts in which nothing was signed
+fn c11_cases(out: &mut Out, r: &mut Rng, thorough: bool) {
+    for k in 0..(if thorough { 24 } else { 8 }) {
+        let mut g = Gen::new(r);
+        let batch = *g.r.pick(&[1u8, 2, 64]);
+        let cfg = cfg_of(&mut g, batch, 0, "off");
+        let junk = |g: &mut Gen, n: usize| -> Vec<(usize, Vec<u8>)> { (0..n).map(|_| (0usize, g.invalid())).collect() };
+        let valid = |g: &mut Gen, n: usize| -> Vec<(usize, Vec<u8>)> { (0..n).map(|i| (1 + i % 3, g.valid_any())).collect() };
+        // shapes: [valid] idle [valid]; [invalid only] idle [valid]; [valid] [invalid only] idle [valid] [valid]
+        let (bursts, pauses): (Vec<Vec<(usize, Vec<u8>)>>, Vec<u64>) = match k % 4 {
+            0 => (vec![valid(&mut g, 2), valid(&mut g, 3)], vec![0, 1300]),
+            1 => (vec![junk(&mut g, 1), valid(&mut g, 2), valid(&mut g, 1)], vec![0, 2200, 0]),
+            2 => (vec![valid(&mut g, 1), junk(&mut g, 3), valid(&mut g, 4), valid(&mut g, 1)], vec![0, 0, 1300, 1100]),
+            _ => (vec![junk(&mut g, 2), junk(&mut g, 1), valid(&mut g, 1)], vec![0, 1100, 1200]),
+        };
+        run_scenario(out, Scenario { cfg, nclients: 4, bursts, sentinel: false, tag: "c11".into(), pauses });
     }
 }
 
@@ -525,6 +571,7 @@ pub fn run(ctx: &Ctx) {
                 run_scenario(&mut out, mixed(&mut r, t, "c09", 0, 25));
             }
         }
+        "c11" => c11_cases(&mut out, &mut r, t),
         "c12" => c12_cases(&mut out, &mut r, if t { 6 } else { 4 }),
         "c17" => {
             for _ in 0..(if t { 600 } else { 80 }) {
@@ -580,5 +627,5 @@ pub fn replay_one(out: &mut Out, args: &[&str]) {
                 .collect()
         })
         .collect();
-    run_scenario(out, Scenario { cfg, nclients, bursts, sentinel, tag });
+    run_scenario(out, Scenario { cfg, nclients, bursts, sentinel, tag, pauses: vec![] });
 }
